@@ -404,6 +404,27 @@ let milu_rt args =
         | _ -> failwith "tok" in
       let t = tr () in
       "OK " ^ hex (x_rt_print t) ^ " " ^ sexp (x_rt_denote t)
+  | [ enc; fillers ] ->
+      (* second argument: `,`-separated hex fillers, used for the token gaps in printing order *)
+      let toks = ref (String.split_on_char ',' enc) in
+      let next () = match !toks with t :: r -> toks := r; t | [] -> failwith "short" in
+      let rec nat_of_i i = if i <= 0 then O else S (nat_of_i (i - 1)) in
+      let nat_of s = nat_of_i (int_of_string s) in
+      let rec tr () =
+        match next () with
+        | "A" -> TAtom (unhex (next ()))
+        | "N" -> let d = next () in TInt (List.init (String.length d) (fun i -> n_of_int (Char.code d.[i])))
+        | "B" -> let m = nat_of (next ()) in let j = nat_of (next ()) in let l = tr () in let r = tr () in TBin (m, j, l, r)
+        | "U" -> let j = nat_of (next ()) in TUn (j, tr ())
+        | "X" -> let a = tr () in let i = tr () in TIndex (a, i)
+        | "F" -> let a = tr () in TAccess (a, unhex (next ()))
+        | "K" -> let n = int_of_string (next ()) in let f = tr () in
+                 let rec go k = if k = 0 then [] else let x = tr () in x :: go (k - 1) in TCall (f, go n)
+        | "C" -> let c = tr () in let y = tr () in let n = tr () in TCond (c, y, n)
+        | _ -> failwith "tok" in
+      let t = tr () in
+      let fs = List.map unhex (String.split_on_char ',' fillers) in
+      "OK " ^ hex (x_rt_print_ws fs t) ^ " " ^ sexp (x_rt_denote t)
   | _ -> "BAD-ARGS"
 
 (* idle_check <period_s> <client_delta_ms> <server_delta_ms> (signed decimal) *)
